@@ -627,3 +627,21 @@ async fn remote<P: Protocol>(
         router_tx.send((connection_id, message)).ok();
     }
 }
+
+/// Opaque handle on the map of pending will tasks shared by the connections of one listener.
+#[cfg(feature = "verif")]
+#[derive(Clone, Default)]
+pub struct VerifWillHandlers(Arc<Mutex<HashMap<String, Sender<AwaitingWill>>>>);
+
+/// The per-connection task (`remote()`), callable with any in-memory stream.
+#[cfg(feature = "verif")]
+pub async fn verif_remote<P: Protocol>(
+    config: Arc<ConnectionSettings>,
+    tenant_id: Option<String>,
+    router_tx: Sender<(ConnectionId, Event)>,
+    stream: Box<dyn N>,
+    protocol: P,
+    will_handlers: VerifWillHandlers,
+) {
+    remote(config, tenant_id, router_tx, stream, protocol, will_handlers.0).await
+}
